@@ -120,6 +120,30 @@ func builtinProcessors(c *core.Ctx) []*procInfo {
 		}
 		top := []*ssa.Function{props}
 		all := core.WithAnon(props)
+		// helpers of the same package that the method calls or passes as callbacks belong to its body
+		for _, f := range append([]*ssa.Function(nil), all...) {
+			for _, b := range f.Blocks {
+				for _, in := range b.Instrs {
+					var ops []*ssa.Value
+					for _, op := range in.Operands(ops) {
+						if *op == nil {
+							continue
+						}
+						if g, ok := (*op).(*ssa.Function); ok && g.Blocks != nil && core.PkgOf(g) == core.PkgOf(props) && g.Signature.Recv() == nil {
+							dup := false
+							for _, x := range all {
+								if x == g {
+									dup = true
+								}
+							}
+							if !dup {
+								all = append(all, core.WithAnon(g)...)
+							}
+						}
+					}
+				}
+			}
+		}
 		anon := all[1:]
 		if invokeIn(top, elReplace) != nil && invokeIn(anon, ro.BinderGet) != nil {
 			pi.Roles["quote"] = true
